@@ -216,7 +216,7 @@ Qed.
 
 Ltac norm :=
   unfold tr in *;
-  cbn [s_jour s_brs s_nreg s_nop s_nconn finish set_brs bump_conn bump_reg add_ev emit set_conn set_opconn] in *;
+  cbn [s_jour s_brs s_nreg s_nop s_nconn finish set_brs bump_conn bump_reg add_ev emit set_conn set_opconn close_conn] in *;
   rewrite ?cmds_rev_emit, ?cmds_rev_cons; cbn [cmds_of]; rewrite ?app_nil_r.
 
 Lemma neq_eqb a b : a <> b -> bytes_eqb a b = false.
@@ -441,25 +441,30 @@ Proof.
   destruct (I1 r Fin) as (q & A & B).
   set (strg := stranger && is_prepared (r_db r)).
   set (c := if commit then COMMIT else ROLLBACK).
-  set (sk := if strg then set_brs (add_ev s (EKill (r_conn r))) (upd_br unkeep t (kill_conn (r_conn r) (s_brs s))) else s).
+  set (sk := if strg then close_conn (set_brs (add_ev s (EKill (r_conn r))) (upd_br unkeep t (kill_conn (r_conn r) (s_brs s)))) (r_conn r) else s).
   set (d := if strg then srv_kill (r_db r) else r_db r).
   set (kept := if strg then false else r_kept r).
   set (conn := if kept then r_conn r else s_nconn sk).
   assert (Ad : agree q d) by (unfold d; destruct strg; [now apply agree_kill|assumption]).
   pose proof (p2_local_accepted (e_detach E) (e_fault E c (s_cnt sk c)) d kept (busy_on (s_brs sk) conn t) commit q Ad) as L.
-  destruct (p2_local _ _ _ _ _ _) as [cr d'].
-  destruct L as (q' & L1 & L2).
+  destruct (p2_local _ _ _ _ _ _) as [cr0 d1].
+  set (dead := kept && existsb (Nat.eqb conn) (s_closed sk)).
+  set (d' := if dead then d else d1).
+  set (trc := if dead then [] else [cr0]).
+  assert (L' : exists q', accepted_from q trc = Some q' /\ agree q' d').
+  { unfold trc, d'. destruct dead; [exists q; split; [reflexivity|assumption]|exact L]. }
+  clear L. destruct L' as (q' & L1 & L2).
   set (id := xa_id (r_xid r) (r_b r)).
   set (sb := if kept then sk else bump_conn sk).
-  set (se := emit sb conn id [cr]).
+  set (se := emit sb conn id trc).
   set (cs := get_cst se conn).
   set (rel := if kept && c_kept cs then c_cur cs else None).
   set (sr := if kept && c_kept cs then set_conn se conn {| c_active := c_active cs; c_kept := false; c_cur := c_cur cs |} else se).
-  assert (Jr : s_jour sr = List.rev (map (fun x => ESql conn (fst x) id (snd x)) [cr]) ++ s_jour sk).
+  assert (Jr : s_jour sr = List.rev (map (fun x => ESql conn (fst x) id (snd x)) trc) ++ s_jour sk).
   { unfold sr, se, sb. destruct (kept && c_kept cs), kept; reflexivity. }
   assert (Jk : forall id', cmds_of id' (List.rev (s_jour sk)) = cmds_of id' (List.rev (s_jour s))).
-  { intro id'. unfold sk. destruct strg; [|reflexivity]. cbn [set_brs add_ev s_jour]. rewrite cmds_rev_cons. cbn [cmds_of]. now rewrite app_nil_r. }
-  assert (Tr : forall id', tr sr id' = tr s id' ++ (if bytes_eqb id id' then [cr] else [])).
+  { intro id'. unfold sk. destruct strg; [|reflexivity]. cbn [close_conn set_brs add_ev s_jour]. rewrite cmds_rev_cons. cbn [cmds_of]. now rewrite app_nil_r. }
+  assert (Tr : forall id', tr sr id' = tr s id' ++ (if bytes_eqb id id' then trc else [])).
   { intro id'. unfold tr. rewrite Jr, cmds_rev_emit, Jk. reflexivity. }
   assert (Lst : upd_br (fun x => set_db_kept d' (r_kept x) true x) t (s_brs sr) = 
                 match rel with Some o => upd_br unkeep o (upd_br (fun x => set_db_kept d' (r_kept x) true x) t (s_brs sr)) | None => upd_br (fun x => set_db_kept d' (r_kept x) true x) t (s_brs sr) end
@@ -474,12 +479,12 @@ Proof.
   assert (Nr : s_nreg sr = s_nreg s) by (unfold sr, se, sb, sk; destruct (kept && c_kept cs), kept, strg; reflexivity).
   assert (No : s_nop sr = s_nop s) by (unfold sr, se, sb, sk; destruct (kept && c_kept cs), kept, strg; reflexivity).
   change (Inv E (finish (set_brs sr match rel with Some o => upd_br unkeep o (upd_br (fun x => set_db_kept d' (r_kept x) true x) t (s_brs sr))
-                   | None => upd_br (fun x => set_db_kept d' (r_kept x) true x) t (s_brs sr) end) (OP2 (res_ok (snd cr))))).
+                   | None => upd_br (fun x => set_db_kept d' (r_kept x) true x) t (s_brs sr) end) (OP2 (if dead then false else res_ok (snd cr0))))).
   rewrite Final.
   assert (RidOf : forall x y, r_xid x = r_xid y -> r_b x = r_b y -> rid x = rid y) by (intros x y H1 H2; unfold rid; now rewrite H1, H2).
   split; cbn [finish set_brs s_brs s_nreg s_nop]; rewrite ?Nr, ?No.
   - intros x Hx. destruct (p2_list_in _ _ _ _ _ _ _ Hx) as (y & Hy & Eo & Ex & Eb & Db).
-    unfold rec_ok. change (tr (finish (set_brs sr (p2_list strg (r_conn r) t d' rel (s_brs s))) (OP2 (res_ok (snd cr)))) (rid x)) with (tr sr (rid x)).
+    unfold rec_ok. change (tr (finish (set_brs sr (p2_list strg (r_conn r) t d' rel (s_brs s))) (OP2 (if dead then false else res_ok (snd cr0)))) (rid x)) with (tr sr (rid x)).
     rewrite (RidOf x y Ex Eb), Tr.
     destruct Db as [[Yt Dx]|[Yt Dx]].
     + assert (y = r) by (apply (nodup_op_eq _ y r I5 Hy Fin); congruence). subst y.
@@ -490,7 +495,7 @@ Proof.
       * intro X. apply Yt. rewrite <- Fop. apply (I6 y r Hy Fin). now rewrite <- X.
   - intros x Hx. destruct (p2_list_in _ _ _ _ _ _ _ Hx) as (y & Hy & Eo & Ex & Eb & Db). rewrite Eb. exact (I2 y Hy).
   - intros id' N O.
-    change (tr (finish (set_brs sr (p2_list strg (r_conn r) t d' rel (s_brs s))) (OP2 (res_ok (snd cr)))) id') with (tr sr id').
+    change (tr (finish (set_brs sr (p2_list strg (r_conn r) t d' rel (s_brs s))) (OP2 (if dead then false else res_ok (snd cr0)))) id') with (tr sr id').
     rewrite Tr. rewrite (neq_eqb id id').
     + rewrite app_nil_r. apply (I3 id' N). intros y Hy Y.
       destruct (p2_list_has strg (r_conn r) t d' rel _ y Hy) as (x & Hx & Rx & _). apply (O x Hx). now rewrite Rx.
@@ -627,17 +632,20 @@ Proof.
   - unfold do_p2. destruct (find_br t (s_brs s)) as [r|]; [|exact H].
     destruct ((is_prepared (r_db r) || negb c && r_sfail r) && negb (r_fin r)); [|exact H].
     set (strg := x && is_prepared (r_db r)).
-    set (sk := if strg then set_brs (add_ev s (EKill (r_conn r))) (upd_br unkeep t (kill_conn (r_conn r) (s_brs s))) else s).
+    set (sk := if strg then close_conn (set_brs (add_ev s (EKill (r_conn r))) (upd_br unkeep t (kill_conn (r_conn r) (s_brs s)))) (r_conn r) else s).
     assert (Hk : reg_scan None (List.rev (s_jour sk)) = Some None).
-    { unfold sk. destruct strg; [|exact H]. cbn [set_brs add_ev s_jour List.rev]. now rewrite reg_scan_app, H. }
+    { unfold sk. destruct strg; [|exact H]. cbn [close_conn set_brs add_ev s_jour List.rev]. now rewrite reg_scan_app, H. }
     clearbody sk.
-    destruct (p2_local _ _ _ _ _ _) as [[k rs] d'] eqn:P.
-    assert (K : count_cmd START [(k, rs)] = 0%nat).
+    destruct (p2_local _ _ _ _ _ _) as [[k rs] d1] eqn:P.
+    assert (K0 : count_cmd START [(k, rs)] = 0%nat).
     { unfold p2_local in P. injection P as <- _ _. destruct c; reflexivity. }
+    match goal with |- context[emit _ _ _ (if ?D then [] else _)] => set (dead := D) end.
+    set (trc := if dead then [] else [(k, rs)]).
+    assert (K : count_cmd START trc = 0%nat) by (unfold trc; destruct dead; [reflexivity|exact K0]).
     match goal with |- context[set_brs ?S _] => assert (J : s_jour S =
-       List.rev (map (fun cr => ESql (if (if strg then false else r_kept r) then r_conn r else s_nconn sk) (fst cr) (xa_id (r_xid r) (r_b r)) (snd cr)) [(k, rs)]) ++ s_jour sk) end.
+       List.rev (map (fun cr => ESql (if (if strg then false else r_kept r) then r_conn r else s_nconn sk) (fst cr) (xa_id (r_xid r) (r_b r)) (snd cr)) trc) ++ s_jour sk) end.
     { destruct (if strg then false else r_kept r); cbn [s_jour emit bump_conn set_conn];
-        match goal with |- context[if ?b then _ else _] => destruct b end; reflexivity. }
+        match goal with |- context[if ?b then set_conn _ _ _ else _] => destruct b end; reflexivity. }
     cbn [finish set_brs s_jour]. rewrite J. now apply reg_emit.
   - destruct (s_out s) as [|[] ?]; try exact H. apply AU.
   - destruct (lookup t (s_opconn s)); [|exact H]. destruct (existsb _ _); [exact H|].
